@@ -52,6 +52,14 @@ def space(size: int, pool_n: int):
     pin = P.Notation('pin', 1, P.Implies(P.EVar(1), P.MetaVar(0)), 'pin({0})')
     odd += [P.Instantiate(P.Implies(P.EVar(1), P.MetaVar(0)), frozendict({0: P.Symbol('s0')})), pin(P.EVar(0)), pin(P.MetaVar(1)),
             P.Instantiate(P.Exists(0, P.App(P.EVar(1), P.MetaVar(0))), frozendict({0: P.EVar(0)})), P.neg(pin(P.bot()))]
+    # definitions whose head is a metavariable (user-defined application-like notations), fed with curried applications
+    f, a, b = P.Symbol('f'), P.Symbol('s0'), P.EVar(0)
+    apply_ = P.Notation('apply', 2, P.App(P.MetaVar(0), P.MetaVar(1)), 'apply({0}, {1})')
+    idn = P.Notation('idn', 1, P.MetaVar(0), 'idn({0})')
+    import proof_generation.proofs.kore as K
+    odd += [apply_(f, a), apply_(P.App(f, a), b), apply_(apply_(f, a), b), apply_(apply_(apply_(f, a), b), P.MetaVar(0)), idn(P.App(P.App(f, a), b)),
+            idn(apply_(P.App(f, a), b)), apply_(idn(f), a), idn(K.nary_app(f, 2)(a, b)), apply_(K.nary_app(f, 1)(a), b), apply_(P.MetaVar(0), a),
+            apply_(P.neg(a), b)]
     return S + inst + odd
 
 
@@ -139,6 +147,11 @@ def ops_chunk(args):
         for k, other in enumerate(partners):
             ops.append((f'match_single(self,partner{k})', lambda a, o=other: P.match_single(a, o)))
             ops.append((f'match_single(partner{k},self)', lambda a, o=other: P.match_single(o, a)))
+        # non-linear schematic patterns: the two occurrences are spelled differently (with and without notation)
+        ops.append(('match_single(phi0->phi0, self->expansion)', lambda a: P.match_single(P.Implies(P.MetaVar(0), P.MetaVar(0)), P.Implies(a, q))))
+        ops.append(('match_single(phi0->phi0, expansion->self)', lambda a: P.match_single(P.Implies(P.MetaVar(0), P.MetaVar(0)), P.Implies(q, a))))
+        ops.append(('match_single(phi0, self, seed)', lambda a: P.match_single(P.MetaVar(0), a, {0: q})))
+        ops.append(('match([(phi0, self), (phi0, expansion)])', lambda a: P.match([(P.MetaVar(0), a), (P.MetaVar(0), q)])))
         for name, f in ops:
             out['evals'] += 1
             r1 = run_op(lambda: f(p))
